@@ -91,7 +91,16 @@ def check(ctx, rep):
     rep.rule("R-FORWARD", "the (callable, *args, **kwargs) of the hand-over are the entry point's own, in order; job records copy them field for field; deferred hand-overs use the fields of the job they were given")
     rep.rule("R-LINK", "the returned future is, wraps, or is stored next to the future of this very hand-over; a deferred hand-over links its delegate future to its own job's future")
     rep.rule("R-EXC-ID", "copy_exception / copy_future_exception / the sync executor propagate the identical exception object and the callable's own result")
-    records = [c for c in prog.classes.values() if c.name in ("RetryJob", "ThrottleJob")]
+    records = []
+    from ..roles import record_roles as _rr0
+    for xc in ctx.executor_classes():
+        try:
+            rc_ = _rr0(ctx, xc)[1]
+        except AnalysisError:
+            continue
+        if rc_ not in records:
+            records.append(rc_)
+    rep.require(len(records) >= 2, "job record classes of the queueing executors not identified (%s)" % [r.name for r in records])
     n_entry = 0
     for ci in ctx.executor_classes():
         if not ctx.gate_field(ci):
@@ -117,12 +126,14 @@ def check(ctx, rep):
     snapshot_rule(ctx, rep)
 
 
-def _inline_policy(ci):
+def _inline_policy(ci, records=()):
+    rkeys = set(r.key for r in records)
+
     def pol(callee, ev, path):
+        if callee.name == "__init__" and callee.owner is not None and callee.owner.key in rkeys:
+            return True
         # follow the executor's own helpers and record constructors; keep futures / metrics opaque
         if callee.owner is not None and (callee.owner is ci or callee.owner in [x for x in ci.mro() if isinstance(x, ClassInfo)]):
-            return True
-        if callee.name == "__init__" and callee.owner is not None and callee.owner.name in ("RetryJob",):
             return True
         if callee.name == "ensure_alive":
             return True
@@ -132,7 +143,7 @@ def _inline_policy(ci):
 
 def _entry(ctx, rep, ci, m, records):
     prog = ctx.prog
-    ps, it = ctx.paths(m, ci, depth=3, inline=_inline_policy(ci))
+    ps, it = ctx.paths(m, ci, depth=3, inline=_inline_policy(ci, records))
     (want_items, want_rest), (want_named, want_kwrest) = expected_of(m)
     key0 = "%s.%s" % (ci.name, m.name)
     nnorm = 0
@@ -170,7 +181,9 @@ def _entry(ctx, rep, ci, m, records):
             rep.ob("R-LINK", key0 + ": the returned future belongs to this hand-over", linked, "returns %s, which is not built on the result of %s" % (fmt(v), fmt(e.d["func"])), where_of(m), trace_of(p))
         else:
             job = e.d["args"][0]
-            jf = dict((f, p.heap.get(("attr", job, f))) for f in ("fn", "args", "kwargs", "future"))
+            from ..roles import record_roles as _rr
+            _qf, _rc, RR = _rr(ctx, ci)
+            jf = dict((f, p.heap.get(("attr", job, RR[f]))) for f in ("fn", "args", "kwargs", "future"))
             seq = flatten_pos((jf["fn"], ("star", jf["args"]))) if jf["fn"] is not None and jf["args"] is not None else None
             gkw = flatten_kw(((None, jf["kwargs"]),)) if jf["kwargs"] is not None else None
             ok = seq == (want_items, want_rest) and gkw == (want_named, want_kwrest)
